@@ -2,8 +2,14 @@
 import common as C
 import gen as G
 
-THEOREMS = ['empty_group_yields_identity', 'empty_group_is_none_under_mask', 'count_is_group_size', 'sum_is_wrapped_sum',
-            'accumulator_does_not_wrap_small_values', 'argmin_first_extremum', 'nonlocal_result_length', 'group_is_column']
+THEOREMS = ['empty_group_yields_identity', 'empty_group_is_none_under_mask', 'count_is_group_size',
+            'sum_is_wrapped_sum', 'accumulator_does_not_wrap_small_values', 'argmin_first_extremum',
+            'nonlocal_result_length', 'group_is_column', 'reduce_refines_spec_partial',
+            'reduce_refines_cases_partial', 'reduce_local_refines_spec_partial', 'zl_computes_zipred_partial',
+            'nonlocal_positions_are_columns', 'local_reduction_of_a_list_node_partial', 'missing_values_are_skipped',
+            'missing_pairs_are_dropped', 'argminmax_positions_count_missing', 'keepdims_wraps_in_length_one',
+            'min_max_of_nonempty_is_member_and_bound', 'any_all_are_exists_forall', 'prod_is_wrapped_product',
+            'count_nonzero_counts', 'positions_matter_to_arg_reducers_only']
 RULE = ('value-first random layouts (numeric/bool leaves, no NaN/inf) x 10 reducers x axis (0..depth-1, negative, some out of '
         'range) x mask_identity x keepdims; non-trivial = input has >= 2 leaves and the operation succeeded; distinct by case text')
 ASSUMPTIONS = ['float leaves are integer-valued (no rounding is modelled); NaN/inf excluded; complex/datetime leaves not generated',
